@@ -363,7 +363,7 @@ NSEED = 12
 
 
 def lammps_enumerate(tier):
-    nsets = 6 if tier == 'quick' else 40
+    nsets = 6 if tier == 'quick' else 24
     cases = []
     for s in range(nsets):
         seeds = [derive_seed('C09-lammps', s, j) % (2 ** 31) for j in range(NSEED)]
@@ -467,6 +467,8 @@ def oracle_atheris(case):
     return {'atheris', 'nt', 'corpus' if case['corpus'] else 'empty_corpus'}
 
 
+# the two enumerations are cheap (seconds) and run as one shard each so that they are scheduled first and are never starved by
+# the wall budget when the machine is shared
 CLAUSES = [
     Clause('precedence', oracle_precedence, g9.precedence_cases, quick=40000, thorough=800000,
            min_share={'nt': 0.37, 'div_then_op': 0.23, 'pow_in_product': 0.37, 'grp_product_pow': 0.12, 'paren_right_operand': 0.13,
@@ -486,10 +488,10 @@ CLAUSES = [
            max_share={'range_skip': 0.05},
            desc='same-dimension expression pairs (class substitution / expansion from my dimension table): conversion A -> B gives the '
                 'same number under three working-unit configurations (1e-10)'),
-    Clause('named', oracle_named, enumerate=named_enumerate, min_share={'nt': 0.37, 'refusal': 0.01},
+    Clause('named', oracle_named, enumerate=named_enumerate, nshards=1, min_share={'nt': 0.37, 'refusal': 0.01},
            desc='exhaustive: every non-over-determined choice of <= 4 named working units: each chosen unit is one (1e-12) via '
                 'unit[], parse and get_in_units, after a different previous configuration; documented ValueError refusals'),
-    Clause('lammps_dims', oracle_lammps, enumerate=lammps_enumerate, min_share={'nt': 0.4},
+    Clause('lammps_dims', oracle_lammps, enumerate=lammps_enumerate, nshards=1, min_share={'nt': 0.4},
            desc='exhaustive: 8 styles x 12 mechanical keys: dimension exponents recovered by regression over 12 random seeds equal '
                 'the dimension of the quantity (1e-6); lj entries are None'),
     Clause('atheris', oracle_atheris, enumerate=atheris_enumerate,
